@@ -51,7 +51,7 @@ PROPS = {
                  sizes=[None, None, 1, 2, 0, -1, 3], lts=[None, 0, 1, 5, -1], wts=[None, 0, 1, -1],
                  probe_every=0, probe_around=True, bad_key_pct=45, no_sess_pct=4),
             "C07", ["C07", "HOLDS", "FRESH"], (300, 6000)),
-    "C08": (prof(weights={"disc": 8, "unl": 22, "restart": 4, "ipcu": 3, "adv": 14}, probe_every=1,
+    "C08": (prof(weights={"disc": 8, "unl": 22, "restart": 4, "ipcu": 3, "adv": 14}, probe_every=1, partial_pct=25,
                  noclear=[False, True], file=[True, True, True, False], bad_key_pct=10),
             "C08", ["C08", "HOLDS", "FRESH"], (300, 6000)),
     "C10": (prof(weights={"restart": 10, "adv": 14, "ren": 10, "unl": 14, "disc": 5}, probe_every=2, file=[True, True, True, False],
@@ -64,7 +64,7 @@ PROPS = {
                  renew_lts=[1, 5, 0, -1, -2147483648, 2147483647], no_sess_pct=8, probe_every=4,
                  shards=[16, 1, 2, 0, 1000, 3, 64], sticky_size_pct=30),
             "C12", ["C12"], (400, 8000)),
-    "C18": (prof(weights={"ipcl": 10, "ipcu": 14, "try": 24, "unl": 8, "adv": 10, "restart": 3, "disc": 4}, probe_every=2,
+    "C18": (prof(weights={"ipcl": 10, "ipcu": 14, "try": 24, "unl": 8, "adv": 10, "restart": 3, "disc": 4}, probe_every=2, partial_pct=20,
                  sizes=[None, 1, 2, 3, 3], bad_key_pct=20),
             "C18", ["C18", "HOLDS"], (300, 6000)),
     # sequential parts of the interleaving properties
